@@ -10,22 +10,32 @@
 use std::collections::{BTreeMap, BTreeSet};
 
 use bytesize::ByteSize;
-use rustic_core::repofile::{Chunker, FileType, IndexFile, Metadata, Node, NodeType, SnapshotFile};
-use rustic_core::{BackupOptions, ConfigOptions, Id, KeyOptions, LsOptions, PruneOptions, RepairIndexOptions, RepairSnapshotsOptions, RusticResult, last_modified_node};
+use rustic_core::repofile::{Chunker, FileType, IndexFile, KeyId, Metadata, Node, NodeType, SnapshotFile};
+use rustic_core::{
+    BackupOptions, ConfigOptions, Excludes, Id, KeyOptions, LsOptions, PruneOptions, RepairIndexOptions, RepairSnapshotsOptions, RewriteOptions,
+    RewriteTreesOptions, RusticResult, last_modified_node,
+};
 
 use super::c02::hist::{check_errors_retry, source};
 use super::c02::{decode_index_files, parse_opts};
 use crate::repo::{self, LogOp, MemBackend, MemSource, RepoHandle, SrcEntry, Store};
 use crate::util::{Rng, Stats, guarded};
 
-/// (`config` is not generated: `MemBackend` keys config files by id, so a changed config shows up as a second
-/// repository — a limitation of the shared backend, see notes/C03.md)
-pub const CMDS: [&str; 8] = ["backup", "forget", "prune", "prune-instant", "merge", "repairsnap", "repairidx-readall", "key"];
+/// `copy`: the repository under test is the DESTINATION (faults are injected there), the source is `Scn::aux`;
+/// `rewrite`: exclude-glob rewrite of all snapshots with `forget` (new trees, new snapshots, old snapshots removed);
+/// `config`: the scenario is built on `OneConfigBackend` (one config file whatever its id, like real backends), the command
+/// runs through `RepoHandle::open_oc`; `key` adds a key, `keyrm` removes a key added in the pre-state.
+pub const CMDS: [&str; 12] =
+    ["backup", "forget", "prune", "prune-instant", "merge", "repairsnap", "repairidx-readall", "key", "copy", "rewrite", "config", "keyrm"];
 
 pub struct Scn {
     pub h: RepoHandle,
     /// snapshots of the pre-state with their sources (`None` = damaged on purpose: content not comparable)
     pub live: Vec<(SnapshotFile, Option<MemSource>)>,
+    /// `copy`: the source repository and the snapshots to copy
+    pub aux: Option<(RepoHandle, Vec<SnapshotFile>)>,
+    /// `keyrm`: the key to remove
+    pub extra_key: Option<KeyId>,
 }
 
 pub fn cfg(seed: u64) -> ConfigOptions {
@@ -33,6 +43,26 @@ pub fn cfg(seed: u64) -> ConfigOptions {
         .set_datapack_size(ByteSize(*Rng::new(seed).pick(&[3000u64, 6000])))
         .set_treepack_size(ByteSize(1500))
         .set_compression(if seed % 2 == 0 { 0 } else { 3 })
+}
+
+/// number of backups in the pre-state (an evolving source): 3 or 4 (2 to 4 where the command does not need three)
+fn n_pre(cmd: &str, seed: u64) -> u64 {
+    match cmd {
+        "prune" | "prune-instant" => 3 + (seed / 7) % 2,
+        _ => 2 + (seed / 7) % 3,
+    }
+}
+
+/// prune options by seed: plain / repack-all / fast-repack, max-unused 0 % or unlimited
+fn prune_opts_seed(instant: bool, seed: u64) -> PruneOptions {
+    let i = if instant { '1' } else { '0' };
+    let (all, fast) = match (seed / 3) % 3 {
+        0 => ('0', '0'),
+        1 => ('1', '0'),
+        _ => ('0', '1'),
+    };
+    let unused = if (seed / 11) % 3 == 0 { "u" } else { "p0" };
+    parse_opts(&format!("0,0,0,00{all}0{i}0{fast},u,{unused}")).unwrap().opts
 }
 
 fn prune_opts(instant: bool) -> PruneOptions {
@@ -47,9 +77,11 @@ pub fn do_backup(h: &RepoHandle, src: &MemSource) -> RusticResult<SnapshotFile> 
 /// the state before the command
 pub fn prestate(cmd: &str, seed: u64) -> Result<Scn, String> {
     let e = |x: Box<rustic_core::RusticError>| format!("oracle-fail:prestate-{}", crate::util::errkind(&x));
-    let (h, _) = RepoHandle::init(MemBackend::new(), None, &cfg(seed)).map_err(e)?;
+    let (h, _) = if cmd == "config" { RepoHandle::init_oc(MemBackend::new(), None, &cfg(seed)) } else { RepoHandle::init(MemBackend::new(), None, &cfg(seed)) }.map_err(e)?;
     let mut live = vec![];
-    for k in 0..3 {
+    let mut aux = None;
+    let mut extra_key = None;
+    for k in 0..n_pre(cmd, seed) {
         let src = source(seed, k, None);
         let snap = do_backup(&h, &src).map_err(e)?;
         live.push((snap, Some(src)));
@@ -82,22 +114,50 @@ pub fn prestate(cmd: &str, seed: u64) -> Result<Scn, String> {
                 l.1 = None;
             }
         }
+        "copy" => {
+            // the repository built so far becomes the source; the destination starts with one snapshot of a related source
+            let (hd, _) = RepoHandle::init(MemBackend::new(), None, &cfg(seed ^ 1)).map_err(e)?;
+            let src = source(seed, 1, None);
+            let snap = do_backup(&hd, &src).map_err(e)?;
+            let snaps: Vec<SnapshotFile> = live.iter().map(|l| l.0.clone()).collect();
+            aux = Some((h, snaps));
+            hd.be.clear_log();
+            return Ok(Scn { h: hd, live: vec![(snap, Some(src))], aux, extra_key });
+        }
+        "keyrm" => {
+            extra_key = Some(h.open().map_err(e)?.add_key("another-password", &KeyOptions::default()).map_err(e)?);
+        }
         _ => {}
     }
     h.be.clear_log();
-    Ok(Scn { h, live })
+    Ok(Scn { h, live, aux, extra_key })
 }
 
-pub fn run_cmd(cmd: &str, seed: u64, h: &RepoHandle, live: &[(SnapshotFile, Option<MemSource>)]) -> RusticResult<()> {
+pub fn run_cmd(cmd: &str, seed: u64, h: &RepoHandle, scn: &Scn) -> RusticResult<()> {
+    let live = &scn.live;
     match cmd {
-        "backup" => do_backup(h, &source(seed, 3, None)).map(|_| ()),
+        "backup" => do_backup(h, &source(seed, 3 + seed % 2, None)).map(|_| ()),
+        "copy" => {
+            let (hs, snaps) = scn.aux.as_ref().expect("copy scenario has a source");
+            let src = hs.open()?.to_indexed()?;
+            let dst = h.open()?.to_indexed_ids()?;
+            src.copy(&dst, snaps.iter())
+        }
+        "rewrite" => {
+            let r = h.open()?.to_indexed()?;
+            let snaps: Vec<SnapshotFile> = live.iter().map(|l| l.0.clone()).collect();
+            let glob = *Rng::new(seed ^ 0x7e).pick(&["!**/f1*", "!**/d1", "!**/sub", "!**/f2", "**/d0"]);
+            let topts = RewriteTreesOptions::default().excludes(Excludes::default().globs(vec![glob.to_string()]));
+            r.rewrite_snapshots_and_trees(snaps, &RewriteOptions::default().forget(true), &topts).map(|_| ())
+        }
+        "keyrm" => h.open()?.delete_key(&scn.extra_key.expect("keyrm scenario has a key")),
         "forget" => {
             let ids: Vec<_> = live.iter().take(2).map(|l| l.0.id).collect();
             h.open()?.delete_snapshots(&ids)
         }
         "prune" | "prune-instant" => {
             let r = h.open()?;
-            let o = prune_opts(cmd == "prune-instant");
+            let o = prune_opts_seed(cmd == "prune-instant", seed);
             let plan = r.prune_plan(&o)?;
             r.prune(&o, plan)
         }
@@ -119,8 +179,8 @@ pub fn run_cmd(cmd: &str, seed: u64, h: &RepoHandle, live: &[(SnapshotFile, Opti
             h.open()?.repair_index(&o, false)
         }
         "config" => {
-            let mut r = h.open()?;
-            r.apply_config(&ConfigOptions::default().set_compression(7)).map(|_| ())
+            let mut r = h.open_oc()?;
+            r.apply_config(&ConfigOptions::default().set_compression(7).set_treepack_size(ByteSize(2000 + seed % 100))).map(|_| ())
         }
         "key" => h.open()?.add_key("another-password", &KeyOptions::default()).map(|_| ()),
         _ => unreachable!(),
@@ -389,7 +449,7 @@ fn exec_mon(cmd: &str, seed: u64, thorough: bool) -> String {
     let before = scn.h.be.store();
     let damaged: BTreeSet<Id> = scn.live.iter().filter(|l| l.1.is_none()).map(|l| *l.0.id).collect();
     // full run
-    if let Err(e) = run_cmd(cmd, seed, &scn.h, &scn.live) {
+    if let Err(e) = run_cmd(cmd, seed, &scn.h, &scn) {
         return format!("oracle-fail:{cmd}:full-run-{}", crate::util::errkind(&e));
     }
     let n = scn.h.be.log().len();
@@ -403,7 +463,7 @@ fn exec_mon(cmd: &str, seed: u64, thorough: bool) -> String {
             }
             let h = RepoHandle { be: MemBackend::from_store(before.clone()), hot: None, key: scn.h.key.clone() };
             if crash { h.be.set_crash_at(Some(k)) } else { h.be.set_fail_only(Some(k)) }
-            let res = run_cmd(cmd, seed, &h, &scn.live);
+            let res = run_cmd(cmd, seed, &h, &scn);
             let hit = h.be.log().iter().any(|o| !o.applied);
             h.be.set_crash_at(None);
             h.be.set_fail_only(None);
@@ -489,7 +549,7 @@ fn big_prestate(variant: u64, seed: u64) -> Result<Scn, String> {
     let src = MemSource::new(vec![SrcEntry::file(&[b"small"], &Rng::new(seed).bytes(40)), SrcEntry::file(&[b"old"], &Rng::new(seed ^ 5).bytes(100))]);
     let snap = do_backup(&h, &src).map_err(e)?;
     h.be.clear_log();
-    Ok(Scn { h, live: vec![(snap, Some(src))] })
+    Ok(Scn { h, live: vec![(snap, Some(src))], aux: None, extra_key: None })
 }
 
 /// every pack an index file lists (unmarked or marked) exists with the size the index says
@@ -668,7 +728,7 @@ pub fn gen_one(cmd: &str, seed: u64, thorough: bool) -> String {
         Err(e) => return fallback(e),
     };
     let before = scn.h.be.store();
-    if let Err(e) = run_cmd(cmd, seed, &scn.h, &scn.live) {
+    if let Err(e) = run_cmd(cmd, seed, &scn.h, &scn) {
         return fallback(crate::util::errkind(&e));
     }
     let log = scn.h.be.log();
@@ -689,7 +749,7 @@ pub fn generate(thorough: bool, rng: &mut Rng, ops: &mut Vec<String>, stats: &mu
         stats.add("trace.ops", line.split(' ').nth(4).map_or(0, |r| r.split(';').count() as u64));
         ops.push(line);
     }
-    let rounds = if thorough { 8 } else { 2 };
+    let rounds = if thorough { 8 } else { 3 };
     for _ in 0..rounds {
         for cmd in CMDS {
             let seed = rng.below(1_000_000);
